@@ -121,6 +121,8 @@ class DocGen:
         self.safe_text = safe_text
         self.strict_unwrap = False
         self.multiline_close = 0.0
+        self.multiline_open = 0.0
+        self.tagline_inline = 0.0     # probability of a whole inline element on a tag line of an unwrap-block
         self.blank_wrappers = 0.0     # probability that a wrapper line of an unwrap-block is blank
         self.used_blank_wrapper = False
         self.stats = {"elements": 0, "ready": 0, "pending": 0, "skip": 0, "unreg": 0, "unwrap": 0,
@@ -165,8 +167,8 @@ class DocGen:
         sep = " " if (single_line or r.random() < 0.85) else r.choice(["  ", "\n", "\n  "])
         pad = "" if (self.ds[-1:] != " " and r.random() < 0.5) else " "
         pad2 = "" if r.random() < 0.5 else " "
-        if pad == "" and (self.ds + name).startswith(self.ds + self.ds[:1]) and False:
-            pad = " "
+        if not single_line and self.multiline_open and r.random() < self.multiline_open:
+            pad2 = r.choice(["\n", "\n", " \n", "\n "])      # the end delimiter on a line of its own
         return self.ds + pad + name + "".join(sep + a for a in attrs) + pad2 + self.de
 
     def close_tag(self, name):
@@ -208,14 +210,19 @@ class DocGen:
                     k = self.pick_kind(kinds)
                     self.stats["inline"] += 1
                     name, attrs = self.tag_body(k, False)
-                    line += self.open_tag(name, attrs) + self.word() + self.close_tag(name) + r.choice([" ", ", ", ""]) \
+                    line += self.open_tag(name, attrs) + self.word() + self.close_tag(name) + r.choice([" ", ", ", "", "\t", "\t// c ", " \t"]) \
                         + (self.word() + " " if r.random() < 0.5 else "")
                 out.append(line.rstrip(" "))
             else:
                 k = self.pick_kind(kinds)
                 unwrap = r.random() < p_unwrap
                 name, attrs = self.tag_body(k, unwrap)
-                out.append(ind + self.open_tag(name, attrs))
+                otag = ind + self.open_tag(name, attrs)
+                if unwrap and self.tagline_inline and r.random() < self.tagline_inline:
+                    k3 = self.pick_kind(kinds)
+                    n3, a3 = self.tag_body(k3, False)
+                    otag += " " + self.open_tag(n3, a3, True) + " note " + self.close_tag(n3)
+                out.append(otag)
                 if unwrap:
                     self.stats["unwrap"] += 1
                     nbody = r.choice([0, 1, 1, 2, 2, 3])
